@@ -57,6 +57,8 @@ func C04(c *core.Ctx) {
 	// the families start from the schema MODEL; a document reaches that model through the decoders: a type list arrives as written
 	// (nullable objects in both orders keep their struct and so their presence checks), and both spellings of a one-element list agree
 	ruleTypeForm(c)
+	// the presence checks of a schema are those of ITS declaration: a same-named schema is bound to the equal one (A-DEDUP)
+	ruleDedup(c)
 	c.Floor("families", c.Counts["members"], 100, "family members")
 }
 
@@ -84,6 +86,7 @@ func C07(c *core.Ctx) {
 	// a length check only runs on a field the decoder fills: the field's identifier must be exported for every property name and
 	// every user capitalization (A-IDENT, shared with C14)
 	ruleIdent(c)
+	ruleDedup(c)
 	c.Floor("families", c.Counts["members"], 80, "family members")
 }
 
